@@ -379,6 +379,11 @@ func (ms *MessageStreamer) Go(ctx context.Context, conn StreamConnection) error 
 				// set a min for this, but _after_ we compute checkInterval
 				delayAmount = time.Second
 			}
+			if checkInterval < time.Millisecond {
+				// a subscription may have a minimum backoff of a few nanoseconds, and
+				// NewTicker panics on a non-positive interval
+				checkInterval = time.Millisecond
+			}
 			ticker := time.NewTicker(checkInterval)
 			ids := []uuid.UUID{}
 			for {
